@@ -35,6 +35,32 @@ CONFIG = {
 EPS = 1e-6
 
 
+def gen_spec_index_arith(rng):
+    """order-statistic index arithmetic: buffer sizes that are multiples of dims (j*size/dims is an exact integer for every j, where
+    a float evaluation such as (j/dims)*size can land just below it), remaps exactly when the buffer holds such a size"""
+    d = rng.choice([3, 5, 6, 7, 9, 10, 10, 11, 11, 12, 13])
+    m = rng.choice([1, 2, 3, 5, 7, 9, 10])
+    lo = rng.choice([-4.0, 0.0, 0.5])
+    return {"kind": "sliding", "dtype": rng.choice(["f", "d"]), "sol_dim": 1, "extras": [], "lr": None, "tmin": None, "offset": 0.0,
+            "dims": [d], "ranges": [[lo, lo + d * 0.5]], "remap_frequency": rng.choice([d, d * m]), "buffer_capacity": d * m,
+            "seed": rng.randrange(1 << 30), "index_arith": True}
+
+
+def gen_ops_index_arith(rng, spec):
+    d = spec["dims"][0]
+    total = spec["buffer_capacity"] + rng.choice([0, d, 2 * d])
+    ops, nid = [], 1
+    while total > 0:
+        n = min(total, rng.choice([d, d, 2 * d, spec["buffer_capacity"]]))
+        cands = []
+        for _ in range(n):
+            cands.append([nid, rng.randrange(-64, 65) / 8.0, [rng.randrange(-56, 57) / 8.0]])
+            nid += 1
+        ops.append(["add", cands, "nd"])
+        total -= n
+    return ops
+
+
 def gen_spec(rng, tier):
     nd = rng.choice([1, 1, 2, 2, 3])
     dims = [rng.choice([1, 2, 3, 4, 5]) for _ in range(nd)]
@@ -315,8 +341,13 @@ def check(rep, tier, seed, driver):
     cases = au.load_corpus("C15")
     rep.count("corpus_cases", len(cases))
     for k in range(n):
-        spec = gen_spec(rng, tier)
-        ops = gen_ops(rng, spec, rng.randint(3, 14 if tier == "quick" else 40))
+        if k % 5 == 4:
+            spec = gen_spec_index_arith(rng)
+            ops = gen_ops_index_arith(rng, spec)
+            rep.count("index_arith_cases")
+        else:
+            spec = gen_spec(rng, tier)
+            ops = gen_ops(rng, spec, rng.randint(3, 14 if tier == "quick" else 40))
         cases.append({"spec": spec, "ops": ops})
     remaps = 0
     for c in cases:
